@@ -136,6 +136,12 @@ func runCheck(eng *Engine, prop, tier string, verbose, noReplay bool) int {
 	}
 	eng.resolveGuards()
 	findings := loadFindings(eng.verif)
+	eng.excuses = map[string]string{}
+	for _, f := range findings {
+		if f.Property == prop && f.Status == "open" && f.Excuse != "" {
+			eng.excuses[f.Obligation] = f.Excuse
+		}
+	}
 	// functions and lemmas under contract for this property
 	var keys []string
 	for _, k := range eng.cs.sortedKeys() {
@@ -273,10 +279,19 @@ func runCheck(eng *Engine, prop, tier string, verbose, noReplay bool) int {
 	bySolver := map[string]int{}
 	var samples []interface{}
 	for _, g := range groups {
-		nObl++
 		excused := g.Finding != nil && g.Status != "discharged"
-		if g.Status == "discharged" {
-			nDis++
+		if excused {
+			if un := findGroup(groups, g.Name+"|unexcused"); un == nil || un.Status != "discharged" {
+				excused = false
+			}
+		}
+		// the obligation of an open known finding is claimed only outside the recorded failing inputs (its |unexcused form, counted
+		// on its own line); the unrestricted form is listed as a known finding and not counted as a proof obligation
+		if !excused {
+			nObl++
+			if g.Status == "discharged" {
+				nDis++
+			}
 		}
 		bySolver[g.Solver]++
 		rec := map[string]interface{}{"name": g.Name, "kind": g.Kind, "status": g.Status, "solver": g.Solver, "secs": round3(g.Secs), "paths": len(g.Instances), "where": g.Where}
